@@ -38,6 +38,8 @@ pub mod verif {
     }
 
     pub fn contempt() -> i32 { EngineOptions::default().contempt_factor }
+
+    pub use crate::engine::search::verif_hooks::{arm_abort, disarm_abort, take_iterations};
 }
 
 pub struct Engine<T: UciTx + Send + Sync + 'static> {
@@ -59,6 +61,16 @@ impl<T: UciTx + Send + Sync + 'static> Engine<T> {
         thread::spawn(move || {
             Search::new(uci_tx, search_rx, SimpleHeuristic, MvvLvaMoveOrder, EngineOptions { debug, ..EngineOptions::default() }).idle();
         })
+    }
+}
+
+#[cfg(inkayaku_verif)]
+impl<T: UciTx + Send + Sync + 'static> Engine<T> {
+    /// FEN of the position the (idle) search thread holds; `None` if it does not answer in time
+    pub fn verif_dump_fen(&self, timeout: std::time::Duration) -> Option<String> {
+        let (tx, rx) = channel();
+        self.search_tx.send(SearchMessage::VerifDumpFen(tx)).ok()?;
+        rx.recv_timeout(timeout).ok()
     }
 }
 
